@@ -10,3 +10,6 @@ mod base;
 mod http;
 mod update;
 
+
+#[cfg(feature = "verif-hooks")]
+pub use self::archive::RepositoryState;
